@@ -385,7 +385,9 @@ def make_twin(rng, dspec):
     return {"dissim": t, "what": what}
 
 
-def gen_pairs(rng, labels, k):
+def gen_pairs(rng, labels, k, allow_none=False):
+    if allow_none and rng.random() < 0.5:
+        labels = list(labels) + [None, None]      # unlabelled units: legal for the label-free dissimilarities
     pairs = []
     fams = cases.FAMILIES
     for _ in range(k):
@@ -426,8 +428,9 @@ def run(ctx):
             break
         big = (i % 8 == 3)
         dspec = gen_instance(rng, big=big)
+        free = cases.dissim_labels(dspec) is None
         labels = cases.dissim_labels(dspec) or cases.LABELS_SMALL + ["Noun", "10"]
-        case = {"dissim": dspec, "pairs": gen_pairs(rng, labels, rng.randint(12, 24)), "pre_use": rng.random() < 0.5}
+        case = {"dissim": dspec, "pairs": gen_pairs(rng, labels, rng.randint(12, 24), allow_none=free), "pre_use": rng.random() < 0.5}
         if rng.random() < 0.6:
             tw = make_twin(rng, dspec)
             if tw:
